@@ -583,18 +583,30 @@ func splitAround(body, ph *Term) (*Term, *Term, bool) {
 }
 
 func containsTerm(t, x *Term) bool {
-	if t == x {
-		return true
-	}
-	for _, a := range t.Args {
-		if containsTerm(a, x) {
+	seen := map[int]bool{}
+	var walk func(t *Term) bool
+	walk = func(t *Term) bool {
+		if t == x {
 			return true
 		}
+		if seen[t.id] {
+			return false
+		}
+		seen[t.id] = true
+		for _, a := range t.Args {
+			if walk(a) {
+				return true
+			}
+		}
+		return false
 	}
-	return false
+	return walk(t)
 }
 
 // strEach(pre, suf, items) = concatenation over the items of pre+item+suf.
+// Defined over the element heap; a store of the last element (the in-place
+// append of an accumulator) unfolds the definition, stores to other places
+// are skipped, and a choice between two heaps distributes.
 func (e *Engine) strEach(st *State, pre, suf, s *Term) *Term {
 	if els := e.stringElems(st, s); els != nil && len(els) <= 8 {
 		var parts []*Term
@@ -603,9 +615,59 @@ func (e *Engine) strEach(st *State, pre, suf, s *Term) *Term {
 		}
 		return Concat(parts...)
 	}
-	r := uf("strEach", StringS, pre, suf, e.comp(st, "E:string"), SliceBase(s), SliceOff(s), SliceLen(s))
-	e.axiom(Implies(Eq(SliceLen(s), IntT(0)), Eq(r, StrT(""))))
+	return e.strEachOn(e.comp(st, "E:string"), pre, suf, SliceBase(s), SliceOff(s), SliceLen(s), 0)
+}
+
+func (e *Engine) strEachOn(E, pre, suf, base, off, n *Term, depth int) *Term {
+	return e.strEachCtx(True, E, pre, suf, base, off, n, depth)
+}
+
+func (e *Engine) strEachCtx(ctx, E, pre, suf, base, off, n *Term, depth int) *Term {
+	if n.Op == "int" && n.IVal.Sign() <= 0 {
+		return StrT("")
+	}
+	if depth < 8 {
+		// a choice of slices / heaps on one condition
+		for _, x := range []*Term{n, base, E} {
+			if x.Op == "ite" {
+				c := x.Args[0]
+				r := func(t, c *Term) *Term {
+					if t.Op == "ite" && t.Args[0] == c {
+						return t.Args[1]
+					}
+					if t.Op == "ite" && Not(t.Args[0]) == c {
+						return t.Args[2]
+					}
+					return Restrict(t, c)
+				}
+				ra := e.strEachCtx(And(ctx, c), r(E, c), pre, suf, r(base, c), r(off, c), r(n, c), depth+1)
+				rb := e.strEachCtx(And(ctx, Not(c)), r(E, Not(c)), pre, suf, r(base, Not(c)), r(off, Not(c)), r(n, Not(c)), depth+1)
+				return Ite(c, ra, rb)
+			}
+		}
+		if E.Op == "store" {
+			loc := Restrict(E.Args[1], ctx)
+			last := ElemLoc(base, ElemIndex(off, Sub(n, IntT(1))))
+			if loc == last {
+				return Concat(e.strEachCtx(ctx, E.Args[0], pre, suf, base, off, Sub(n, IntT(1)), depth+1), pre, Restrict(E.Args[2], ctx), suf)
+			}
+			// a store to another object does not matter
+			if distinctObjs(LocObj(loc), LocObj(base)) {
+				return e.strEachCtx(ctx, E.Args[0], pre, suf, base, off, n, depth)
+			}
+		}
+	}
+	r := uf("strEach", StringS, pre, suf, E, base, off, n)
+	e.axiom(Implies(Le(n, IntT(0)), Eq(r, StrT(""))))
 	return r
+}
+
+// distinctObjs: syntactically different allocation ids.
+func distinctObjs(a, b *Term) bool {
+	if a == b {
+		return false
+	}
+	return Eq(a, b).IsFalse()
 }
 
 func init() {
